@@ -12,12 +12,38 @@ use crate::tokinizer::{Tokinizer};
 use regex::Regex;
 use crate::token::ui_token::{UiTokenType};
 
-/* Reads the digits of a based literal; accumulates in f64 so that literals of any length are accepted */
+/* Reads the digits of a based literal of any length as the nearest double of the integer they denote */
 fn parse_radix(text: &str, radix: u32) -> f64 {
     match u128::from_str_radix(text, radix) {
         /* Exact integer, converted to the nearest double */
         Ok(number) => number as f64,
-        Err(_) => text.chars().fold(0.0, |number, ch| number * radix as f64 + ch.to_digit(radix).unwrap_or(0) as f64)
+        Err(_) => {
+            /* More than 128 bits (the radix is 2, 8 or 16): the leading bits decide the double, a bit set anywhere
+               behind them can only break a tie, and the digits that are left over scale by a power of two */
+            let bits_per_digit = radix.trailing_zeros();
+            let mut head: u128 = 0;
+            let mut remaining_bits: u32 = 0;
+            let mut sticky = false;
+
+            for ch in text.chars() {
+                let digit = ch.to_digit(radix).unwrap_or(0) as u128;
+                if head >> (128 - bits_per_digit) == 0 {
+                    head = (head << bits_per_digit) | digit;
+                } else {
+                    remaining_bits += bits_per_digit;
+                    sticky |= digit != 0;
+                }
+            }
+
+            let mut number = (head | sticky as u128) as f64;
+            for _ in 0..remaining_bits {
+                number *= 2.0;
+                if number.is_infinite() {
+                    break;
+                }
+            }
+            number
+        }
     }
 }
 
